@@ -39,6 +39,9 @@ BODIES = [
     "<OFX><A><B>" + "".join(chr(c) for c in range(0xa1, 0xb0)) + "</B></A></OFX>",
     "<OFX>\n<A>\n<B>1\n<C>2\n</A>\n<D>ü\n</OFX>",
     "<>",
+    # non-ASCII characters whose latin-1 / cp1252 bytes are also well-formed UTF-8 (C3 A9, C2 A3, C3 BC): the declared codec must still be used
+    "<OFX><A><B>Ã© Â£ Ã¼</B></A></OFX>",
+    "<OFX><A><B>Ã€Â¿</B></A></OFX>",
 ]
 
 
@@ -53,9 +56,14 @@ def v1_file(fields, lead, sep, blank, gap, body_bytes, trail=b""):
     return K.render_v1(fields, sep=sep, blank=blank, tail=gap, lead=lead).encode("ascii") + body_bytes + trail
 
 
-def v2_file(fields, quote, lead, a, b, body_bytes, trail=b""):
-    xml = K.XML_DECL.replace('"', quote)
-    return (lead + K.render_v2(fields, xml=xml, a=a, b=b)).encode("ascii") + body_bytes + trail
+def xml_decl(qv, qe, qs):
+    """XML declaration with each pseudo-attribute quoted independently (None = attribute absent)."""
+    parts = [' %s=%s%s%s' % (n, q, v, q) for n, v, q in (("version", "1.0", qv), ("encoding", "UTF-8", qe), ("standalone", "no", qs)) if q]
+    return "<?xml" + ("".join(parts) or " ") + "?>"
+
+
+def v2_file(fields, quotes, lead, a, b, body_bytes, trail=b""):
+    return (lead + K.render_v2(fields, xml=xml_decl(*quotes), a=a, b=b)).encode("ascii") + body_bytes + trail
 
 
 def translate():
@@ -153,17 +161,20 @@ def run(rep, tier, rng):
             tree_predicate("v1", data, want, body, layout)
 
     # ---------------- version 2 ----------------
-    layouts2 = list(itertools.product(['"', "'"], ["", "\n", "\n\n", " \r\n"], ["", "\n", "\r\n", " ", "\r\n\r\n"], ["", "\n", "\r\n", "  ", "\r\n\r\n", "\n \n"]))
+    quote_sets = list(itertools.product(['"', "'", None], repeat=3))
+    layouts2 = list(itertools.product(quote_sets, ["", "\n", "\n\n", " \r\n"], ["", "\n", "\r\n", " ", "\r\n\r\n"], ["", "\n", "\r\n", "  ", "\r\n\r\n", "\n \n"]))
     rng.shuffle(layouts2)
     n2 = len(layouts2) if thorough else 90
-    for (quote, lead, a, b) in layouts2[:n2]:
+    # every combination of quote styles / absent pseudo-attributes always, the line-break product sampled
+    core2 = [(q, "", rng.choice(["", "\r\n"]), rng.choice(["", "\n"])) for q in quote_sets]
+    for (quote, lead, a, b) in core2 + layouts2[:n2]:
         for body in (BODIES if thorough else rng.sample(BODIES, 2)):
             bb = body.encode("utf_8")
             ver, sec = rng.choice(K.SPEC_V2_VERSIONS), rng.choice(K.SPEC_SECURITY)
             old, new = rng.choice(["NONE", K.rand_uid(rng)]), K.rand_uid(rng)
             data = v2_file(K.valid_v2_fields(ver, sec, old, new), quote, lead, a, b, bb, rng.choice(trails))
             want = ("v2", 200, ver, sec, old, new)
-            layout = {"quote": quote, "lead": lead, "xml/ofx": a, "ofx/body": b}
+            layout = {"quotes(version,encoding,standalone)": quote, "lead": lead, "xml/ofx": a, "ofx/body": b}
             cases.append(("ph", data))
             predicate("v2", data, want, body, layout)
             tree_predicate("v2", data, want, body, layout)
@@ -212,7 +223,7 @@ def run(rep, tier, rng):
         else:
             f2 = K.valid_v2_fields(rng.choice([200, 203, 204]), "NONE", "NONE", K.rand_uid(rng))
             body = rng.choice([b"<OFX>\xc3\xa9</OFX>", b"<OFX>\xe9</OFX>", b"<OFX>\xed\xa0\x80</OFX>", b"<OFX>\xf0\x9f\x92\xa9\xf4\x90\x80\x80</OFX>", b"<OFX>\xc0\xaf</OFX>", b"<OFX>\xe0\x9f\xbf</OFX>", b""])
-            data = v2_file(f2, rng.choice(['"', "'"]), rng.choice(["", "\n", " "]), rng.choice(["", "\n"]), rng.choice(["", "\n"]), body)
+            data = v2_file(f2, (rng.choice(['"', "'", None]), rng.choice(['"', "'", None]), rng.choice(['"', "'"])), rng.choice(["", "\n", " "]), rng.choice(["", "\n"]), rng.choice(["", "\n"]), body)
             if rng.random() < 0.3:
                 k = rng.randrange(len(data))
                 data = data[:k] + data[k + 1:]
